@@ -259,7 +259,7 @@ class ValuesSetter(FunctionContract):
     variable, in declaration order, is assigned exactly once through the checked single-variable assignment (`__setattr__`, whose own
     contract keeps length and dtype) - row i of the array cast to that variable's dtype, or the scalar spread over the variable's shape
     with the variable's dtype; nothing else is assigned."""
-    props = ('C09',)
+    props = ('C09', 'C11')
     required_covers = ('assigned', 'DimensionError')
 
     def __init__(self, which):
